@@ -2,6 +2,7 @@ package props
 
 import (
 	"fmt"
+	"time"
 
 	"github.com/creachadair/mds/verifsim/simsync"
 	"verifsim/chooser"
@@ -143,6 +144,33 @@ func SelfTest() error {
 		if mode == 1 && bad == 0 {
 			return fmt.Errorf("cond canary: a missing Signal never deadlocked in %d runs", runs)
 		}
+	}
+	// Detach canary: a lock the simulator does not own (a one-slot channel)
+	// around a counter, with a yield point inside the critical section. The
+	// thread that blocks on the channel for real is detached, the holder runs
+	// on, and the run finishes: no deadlock, no race report.
+	old := sched.DetachAfter
+	sched.DetachAfter = 30 * time.Millisecond
+	for i := 0; i < 3; i++ {
+		sem := make(chan struct{}, 1)
+		n := 0
+		body := func(int) {
+			for k := 0; k < 2; k++ {
+				sem <- struct{}{}
+				n++
+				sched.Yield(sched.KPoint, 0, 0)
+				<-sem
+			}
+		}
+		r := sched.Run(ch, sched.Config{StayWeight: 0}, []func(int){body, body})
+		if r.Deadlock || r.Races > 0 || len(r.Panics) > 0 || n != 4 {
+			sched.DetachAfter = old
+			return fmt.Errorf("detach canary: deadlock=%v races=%d panics=%v n=%d (want a clean finish)", r.Deadlock, r.Races, r.Panics, n)
+		}
+	}
+	sched.DetachAfter = old
+	if sched.Tainted != 0 {
+		return fmt.Errorf("detach canary left %d abandoned threads", sched.Tainted)
 	}
 	// Pool canaries: objects passed through a simulated pool carry the
 	// Put-before-Get edge (proper use is never reported) and nothing more (a
